@@ -81,6 +81,8 @@ impl StateMachine<'_> {
         if let Some(commit) = parse_merge_marker(&self.line, "++<<<<<<<") {
             self.state = MergeConflict(merge_parents.clone(), Ours);
             self.painter.merge_conflict_commit_names[Ours] = Some(commit.to_string());
+            // Not every region has an ancestral section: do not keep the name from an earlier one.
+            self.painter.merge_conflict_commit_names[Ancestral] = None;
             true
         } else {
             false
